@@ -82,6 +82,10 @@ def rich_bases():
     out.append({"src": "dropin", "traits": no_default, "code": p_c12.render(dict(
         base12, kind="struct", gen="aTN", entry="attr", traits=no_default, variants=[
             {"style": "tuple", "fields": ["T", "str", "arr"]}])).replace("'a", "'l")})
+    # .. the const parameter declared in front of the type parameter
+    out.append({"src": "dropin", "traits": no_default, "code": p_c12.render(dict(
+        base12, kind="enum", gen="TN", entry="derive", traits=no_default, const_first=True, disc=False, variants=[
+            {"style": "unit", "fields": []}, {"style": "named", "fields": ["arr", "T"]}]))})
     out.append({"src": "dropin", "traits": list(p_c12.ALL8), "code": p_c12.render(dict(
         base12, kind="struct", gen="T", entry="attr", traits=list(p_c12.ALL8), variants=[
             {"style": "named", "fields": ["T", "string"]}]))})
